@@ -167,3 +167,28 @@ package core
 //@ pure
 //@ opt noalloc
 //@ ensures [exact] result == wrap64(mc.InitialGas - mc.AvailableGas)
+
+// ---------------------------------------------------------------------------------------------------------------
+// Block verification: "fees paid equal rewards credited" at the block level. The end-of-block hooks (staking.EndBlock -> rewardsToPool ->
+// blockRewards) credit header.GasRewards as it stands in the header — a figure the PROPOSER wrote. The one place that ties it to the fees
+// actually deducted is Process's comparison of the header field with `gasRewards`, the sum its loop of ApplyTransaction calls accumulated
+// (price x gas reported per transaction). GUARD CONTRACT (typestate): the hooks that credit the rewards, and the accepting return, are
+// reachable only when the two figures are EQUAL — a header claiming more mints the difference on every verifying node, one claiming less
+// destroys it.
+// The accumulation loop stays abstract here (no invariant: ApplyTransaction is `modifies all` under C07): that `gasRewards` at the guard is
+// Σ price x reported gas of the applied transactions is C17's verified (*StateProcessor).ApplyTransaction [accumulates]; that the reported gas
+// is the gas paid for is [fees-paid-equal-gas-reported-without-refund] above / the C17 known finding. What is checked is the guard itself.
+// (The sibling gas-used comparison is not in Process: BlockValidator.ValidateState compares block.GasUsed() with the returned UsedGas.)
+// ---------------------------------------------------------------------------------------------------------------
+// Plain accessors of an immutable block (return the transaction list field / its length), used between the guard and the hooks:
+//@ effectfree (*github.com/youchainhq/go-youchain/core/types.Block).Transactions (github.com/youchainhq/go-youchain/core/types.Transactions).Len
+//@ ghost var c07BlockFees: int        // accumulated gas rewards when the end-of-block hooks start
+//@ ghost var c07BlockClaim: int       // header.GasRewards at that moment (what the hooks will credit)
+//@ func (*StateProcessor).Process props C07
+//@ opt per-return
+//@ assert before call (*StateProcessor).EndBlock: [claimed-rewards-equal-fees] big(gasRewards) == big(header.GasRewards)
+//@ ghost before call (*StateProcessor).EndBlock: c07BlockFees := big(gasRewards)
+//@ ghost before call (*StateProcessor).EndBlock: c07BlockClaim := big(header.GasRewards)
+//@ modifies all, c07Ledger, c07Tok, c07RD, c07AvailPre, c07Refunded, c07BlockFees, c07BlockClaim
+//@ ensures [accept-implies-claimed-rewards-equal-fees] result1 == nil ==> c07BlockFees == c07BlockClaim
+//@ ensures [refused-runs-no-hook] result1 != nil ==> c07BlockFees == old(c07BlockFees) && c07BlockClaim == old(c07BlockClaim)
